@@ -135,10 +135,13 @@ pub fn check_via_muxer(strings: &[Vec<u8>], obs: &mut Obs) -> Vec<Violation> {
 /// Constructive: NAL list known by construction (emulation-safe bodies), random start codes,
 /// leading garbage, trailing zeros.
 pub fn constructive(r: &mut crate::util::Rng, obs: &mut Obs) -> (Vec<u8>, Vec<Violation>) {
-    let n = r.range(1, 12) as usize;
+    // now and then an access unit of a few thousand tiny units (counts around 1024, 2048, ...)
+    let many = r.chance(1, 100);
+    let n = if many { *r.pick(&[1023usize, 1024, 1025, 2048, 2049, 3000]) } else { r.range(1, 12) as usize };
     let mut nals: Vec<Vec<u8>> = Vec::new();
     for _ in 0..n {
         let len = match r.below(8) {
+            _ if many => r.range(1, 5) as usize,
             0 => 1,
             1 => r.range(2, 4) as usize,
             7 => r.range(1000, 65_536) as usize,
